@@ -446,6 +446,9 @@ def k_edits(k, atoms=('p', 'q')):
             else:
                 lab[i].add(a)
                 out.append((('add_label', i, a), K(k.n, k.succ, lab)))
+    # install a whole new labelling written for a larger model (keys that are not states)
+    lab = [set(['q']) if 'q' not in k.lab[i] else set() for i in range(k.n)]
+    out.append((('replace_labelling', tuple(tuple(sorted(l)) for l in lab)), K(k.n, k.succ, lab)))
     return out
 
 
@@ -458,5 +461,11 @@ def apply_edit(Kl, edit, names=None):
         Kl.labels(nm(edit[1])).add(edit[2])
     elif edit[0] == 'del_label':
         Kl.labels(nm(edit[1])).discard(edit[2])
+    elif edit[0] == 'replace_labelling':
+        L = dict((nm(i), set(l)) for i, l in enumerate(edit[1]))
+        L['ghost'] = set(['p', 'q'])
+        L[('no', 'state')] = set(['q'])
+        L[97] = set(['p'])
+        Kl.replace_labelling_function(L)
     else:
         raise ValueError(edit)
